@@ -133,6 +133,11 @@ def _check(before, active_before, srv, old, new, result, log, second=False):
             raise Violation("C14/true-but-active-wrong", what)
     if srv.violations:
         raise Violation("C14/protocol-violation", dict(what, violations=list(srv.violations)))
+    # C09's clause for this multi-step operation: when the server answered OK to every step and the rename is
+    # possible (old exists, new does not), the call reports success
+    if log and all(x.endswith("->OK") for x in log) and old in before and new not in before and old != new:
+        if result != ("ret", True):
+            raise Violation("C14/every-step-OK-but-not-reported-as-success", what)
 
 
 def _call(c, old, new):
